@@ -366,6 +366,11 @@ func (h *handler) disconnect(err error) {
 }
 
 func (h *handler) handleDisconnect(err error) {
+	// A peer that stopped reading leaves the sender goroutine blocked in a
+	// write that holds the connection's write lock; Close, which writes a
+	// close frame under the same lock, would wait for it forever and the
+	// participant would never be removed. Expire pending writes first.
+	h.Conn.SetWriteDeadline(time.Now())
 	h.Conn.Close()
 	h.Handler.HandleDisconnect(err)
 }
